@@ -258,6 +258,8 @@ class MBuild:
                 raise NotADirectoryError(p)
             need.append(a)
         for a in need:
+            if '\0' in a:
+                raise ValueError('embedded null byte')      # what the OS layer of Python answers
             if len(os.fsencode(os.path.basename(a))) > NAME_MAX:
                 raise OSError(errno.ENAMETOOLONG, 'File name too long', a)
         for a in reversed(need):
@@ -281,6 +283,8 @@ class MBuild:
     def user_write(self, p, data, fixed_stamp=False):
         if p not in self.inprog:
             raise AssertionError('program writes outside its own build_file: %s' % p)
+        if '\0' in p:
+            raise ValueError('embedded null byte')
         if len(os.fsencode(os.path.basename(p))) > NAME_MAX:
             raise OSError(errno.ENAMETOOLONG, 'File name too long', p)
         self.pending[p] = data
